@@ -1,9 +1,117 @@
-/- line protocol stub for component `PathS` (filled in by the component's owner) -/
+import Tulz.Model.PathStr
+import Tulz.Model.FsTree
+import Tulz.Model.DirVisitor
+import Tulz.Drv.FileM
+/- line protocol for the Path models: `ps <op> <args…>`; same lines and same output format as
+   harness/path/path_harness.cpp.  Strings travel hex-encoded (`-` = empty), one byte = one `Char`. -/
 namespace Tulz.Drv.PathS
+open Tulz.PathStr Tulz.Fs Tulz.Dv
+open Tulz.Drv.FileM (unhex hex)
 
-abbrev State := Unit
-def init : State := ()
+structure State where
+  tree : FsNode := .dir []
+  cwd : String := "/"
+  stack : List Visitor := []
 
-def step (s : State) (_args : List String) : State × String := (s, "bad-op")
+def init : State := {}
+
+def toStr (h : String) : Str := (unhex h).map fun b => Char.ofNat b.toNat
+def ofStr (s : Str) : String := hex (s.map fun c => UInt8.ofNat c.toNat)
+
+def showRes : Except PathStr.Err Str → String
+  | .ok s => ofStr s
+  | .error _ => "!OOR"
+
+/-- bytes of a hex-encoded relative path, split at '/', empty segments dropped -/
+def segsOfString (s : String) : List String := (s.splitOn "/").filter (· ≠ "")
+
+def bytesToString (b : List UInt8) : String := String.ofList (b.map fun x => Char.ofNat x.toNat)
+def stringToHex (s : String) : String := hex (s.toList.map fun c => UInt8.ofNat c.toNat)
+
+def segs (h : String) : List String := segsOfString (bytesToString (unhex h))
+
+/-- put `new` at `path` (parents must exist; an existing entry of that name is replaced) -/
+def insertAt : List String → FsNode → FsNode → FsNode
+  | [], _, new => new
+  | _ :: _, .file b, _ => .file b
+  | s :: r, .dir cs, new =>
+    if cs.any (fun (e : String × FsNode) => e.1 = s) then
+      .dir (cs.map fun (e : String × FsNode) => if e.1 = s then (e.1, insertAt r e.2 new) else e)
+    else if r.isEmpty then .dir (cs ++ [(s, new)])
+    else .dir cs
+
+def insertStr (x : String) : List String → List String
+  | [] => [x]
+  | y :: ys => if x ≤ y then x :: y :: ys else y :: insertStr x ys
+def sortStr (l : List String) : List String := l.foldr insertStr []
+
+/-- the order `readdir` happens to use in the driver; results are printed sorted -/
+def rd (cs : Entries) : List String := "." :: ".." :: cs.map Prod.fst
+
+def fsErr : FsErr → String
+  | .notFound => "!NotFound" | .notDirectory => "!NotDirectory" | .notFile => "!NotFile"
+  | .fuel => "!Fuel" | .os => "!Os"
+
+def showList (l : List String) : String := "l=" ++ ",".intercalate (sortStr (l.map stringToHex))
+
+/-- normalise a path against the tree: absolute (`/…`) or relative to `cwd`; `..` pops, `.` stays -/
+def normalise (cwd : String) (x : String) : List String :=
+  let start := if x.startsWith "/" then [] else (segsOfString cwd).reverse
+  ((segsOfString x).foldl (fun acc s => if s = ".." then acc.drop 1 else if s = "." then acc else s :: acc) start).reverse
+
+/-- the specified `chdir` of the driver: succeeds exactly on directories of the tree -/
+def os (tree : FsNode) : Os :=
+  ⟨fun cwd x =>
+    let p := normalise cwd x
+    if pIsDirectory tree p then "/" ++ "/".intercalate p else cwd⟩
+
+def showCwd (c : String) : String := "cwd=" ++ stringToHex c
+
+def step (s : State) (args : List String) : State × String :=
+  match args with
+  | ["reset"] => (init, "ok")
+  | ["root", _] => (init, "ok")
+  -- strings
+  | ["name", a] => (s, showRes (getPathName (toStr a)))
+  | ["parent", a] => (s, showRes (getParentDirectory (toStr a)))
+  | ["join", a, b] => (s, ofStr (join (toStr a) (toStr b)))
+  | ["abs", a] => (s, if isAbsolute (toStr a) then "b=1" else "b=0")
+  | ["nj", a, b] => (s, showRes (getPathName (join (toStr a) (toStr b))))
+  | ["pj", a, b] => (s, showRes (getParentDirectory (join (toStr a) (toStr b))))
+  -- tree
+  | ["mkdir", p] => ({ s with tree := insertAt (segs p) s.tree (.dir []) }, "ok")
+  | ["mkfile", p, n] => ({ s with tree := insertAt (segs p) s.tree (.file n.toNat!) }, "ok")
+  | ["exists", p] => (s, if pExists s.tree (segs p) then "b=1" else "b=0")
+  | ["isfile", p] => (s, if pIsFile s.tree (segs p) then "b=1" else "b=0")
+  | ["isdir", p] => (s, if pIsDirectory s.tree (segs p) then "b=1" else "b=0")
+  | ["size", p] =>
+    match pSize rd s.tree (s.tree.depth + 1) (segs p) with
+    | .ok n => (s, "n=" ++ toString n)
+    | .error e => (s, fsErr e)
+  | ["list", p] =>
+    match listChildren rd s.tree (segs p) with
+    | .ok l => (s, showList l)
+    | .error e => (s, fsErr e)
+  -- the specification side, compared with std::filesystem in the harness
+  | ["sfs_size", p] =>
+    match resolve s.tree (segs p) with
+    | some n => (s, "n=" ++ toString n.fileBytes)
+    | none => (s, "!NotFound")
+  | ["sfs_list", p] =>
+    match resolve s.tree (segs p) with
+    | some (.dir cs) => (s, showList (cs.map Prod.fst))
+    | some (.file _) => (s, "!NotDirectory")
+    | none => (s, "!NotFound")
+  -- DirectoryVisitor
+  | ["dv_push", p] =>
+    let dir := bytesToString (unhex p)
+    let (c, v) := ctor (os s.tree) s.cwd dir
+    ({ s with cwd := c, stack := v :: s.stack }, showCwd c)
+  | ["dv_pop"] =>
+    match s.stack with
+    | [] => (s, "!no-visitor")
+    | v :: r => let c := dtor (os s.tree) s.cwd v; ({ s with cwd := c, stack := r }, showCwd c)
+  | ["cwd"] => (s, showCwd s.cwd)
+  | _ => (s, "bad-op")
 
 end Tulz.Drv.PathS
